@@ -9,10 +9,10 @@ coq/Makefile: coq/_CoqProject coq/Records.v coq/Proofs/Frames.v
 	cd coq && coq_makefile -f _CoqProject -o Makefile
 # the executable model only (no proofs): what the correspondence check runs
 model: coq/Makefile
-	$(MAKE) -C coq -j16 --no-print-directory Algos.vo Reports.vo Session.vo
+	$(MAKE) -C coq -j16 --no-print-directory Algos.vo Reports.vo Session.vo Digest.vo
 proofs: coq/Makefile
 	$(MAKE) -C coq -j16 --no-print-directory
-coq/extract/btmodel: model coq/extract/Extract.v coq/extract/driver.ml coq/Algos.vo coq/Reports.vo
+coq/extract/btmodel: model coq/extract/Extract.v coq/extract/driver.ml coq/Algos.vo coq/Reports.vo coq/Digest.vo
 	cd coq/extract && coqc -Q .. BT Extract.v > /dev/null && \
 	ocamlfind ocamlopt -rectypes -thread -package coq-core.kernel -linkpkg -w -a model.mli model.ml driver.ml -o btmodel
 extract: coq/extract/btmodel
